@@ -56,7 +56,7 @@ func main() {
 	r := rand.New(rand.NewSource(*seed))
 	ncorp, nset := 160, 8
 	if *tier == "thorough" {
-		ncorp, nset = 900, 12
+		ncorp, nset = 5000, 12
 	}
 	kterms := []sq.Term{{1}, {1, 2}, {2}, {2, 1}, {3}}
 	for ci := 0; ci < ncorp; ci++ {
